@@ -32,7 +32,22 @@ KINDS = {
 }
 
 
-def mk(kind, k):
+# realistic magnitude: epoch nanoseconds that are not a multiple of 256 (the
+# spacing of doubles near 1.7e18), so float arithmetic on the window edges
+# no longer lands on the integer values
+EPOCH_BASE = 1_715_688_000_123_456_789
+
+
+def mk(kind, k, base=0):
+    out = _mk(kind, k)
+    if base:
+        for s in out:
+            s["start_timestamp"] += base
+            s["end_timestamp"] += base
+    return out
+
+
+def _mk(kind, k):
     r, c, fl = KINDS[kind]
     jid = f"j{k}"
     out = []
@@ -95,8 +110,8 @@ def scale_store(n):
     return [kinds[(k * 5) % len(kinds)] for k in range(n)]
 
 
-def run_store(store, buf, batches=(1, 1000)):
-    traces = [mk(kd, k) for k, kd in enumerate(store)]
+def run_store(store, buf, batches=(1, 1000), base=0):
+    traces = [mk(kd, k, base) for k, kd in enumerate(store)]
     spans = [s for t in traces for s in t]
     bad = []
     stats = {"dangling_removed": 0, "window_removed": 0, "renamed": 0,
@@ -193,15 +208,19 @@ def handle(task):
             b["buf"] = buf
             out.append(b)
         agg["scale_runs"] = agg.get("scale_runs", 0) + k
+    base = EPOCH_BASE if task.get("epoch") else 0
     for store, buf in task["cases"]:
-        k, bad, stats = run_store(store, buf)
+        k, bad, stats = run_store(store, buf, base=base)
         n += k
         for s, v in stats.items():
             agg[s] = agg.get(s, 0) + v
         for b in bad:
             b["store"] = store
             b["buf"] = buf
+            b["epoch"] = bool(base)
             out.append(b)
+    if base:
+        agg = {"epoch_runs": n}
     return {"n": n, "bad": out, "stats": agg}
 
 
@@ -219,6 +238,8 @@ def build(tier, ctx):
         sizes += [(1000, 1), (1801, 1), (1301, 2), (2001, 0)]
     return [{"scale": [sz], "cases": []} for sz in sizes] + \
         [{"cases": cases[i:i + chunk]}
+         for i in range(0, len(cases), chunk)] + \
+        [{"cases": cases[i:i + chunk], "epoch": True}
          for i in range(0, len(cases), chunk)]
 
 
@@ -234,10 +255,13 @@ def collect(tier, tasks, results, ctx):
         for b in r["bad"]:
             viol.append({
                 "key": input_key(["C11", b["store"], b["buf"], b["bs"],
-                                  b["order"]]),
+                                  b["order"]] +
+                                 (["epoch"] if b.get("epoch") else [])),
                 "what": f"store={b['store']} time_buffer={b['buf']} "
                         f"batch={b['bs']} order={b['order']}: {b['problem']}",
-                "input": {k: b[k] for k in ("store", "buf", "bs", "order")},
+                "input": dict({k: b[k] for k in ("store", "buf", "bs",
+                                                  "order")},
+                              epoch=bool(b.get("epoch"))),
                 "observed": b["problem"]})
     he = None
     for s in ("dangling_removed", "window_removed", "renamed",
@@ -261,7 +285,10 @@ def collect(tier, tasks, results, ctx):
         "exhaustive": True,
         "bounds": {"tier": tier,
                    "traces": "<= 3" if tier == "quick" else "<= 4",
-                   "time_buffer_min": [0, 1] if tier == "quick" else [0, 1, 2]},
+                   "time_buffer_min": [0, 1] if tier == "quick" else [0, 1, 2],
+                   "time_base": "minutes from 0, and the same stores at "
+                   "epoch magnitude (%d ns, not a multiple of 256)"
+                   % EPOCH_BASE},
         "store_buffer_pairs": ncases, "pairs_where": agg,
         "states_meaning": "(store, time_buffer) pairs; transitions = "
                           "ingest+clean+stream executions on the real code",
@@ -279,6 +306,7 @@ def replay(rec, ctx):
     if i["store"][:1] == ["scale"]:
         n, bad, _ = run_store(scale_store(i["store"][1]), i["buf"], (1000,))
     else:
-        n, bad, _ = run_store(i["store"], i["buf"])
+        n, bad, _ = run_store(i["store"], i["buf"],
+                              base=EPOCH_BASE if i.get("epoch") else 0)
     bad = [b for b in bad if b["bs"] == i["bs"] and b["order"] == i["order"]]
     return bool(bad), repr([b["problem"] for b in bad])[:300]
